@@ -8,7 +8,9 @@
 (*   init   : dir, st, file, bg                     (first record)         *)
 (*   call   : c, op, seen, task        caller c evaluates transfer.state.op *)
 (*   notify : old, new                 a state listener was told            *)
-(*   ret    : c, val ("true"|"false")  the call returned / raised refusal   *)
+(*   ret    : c, val ("true"|"false"|"raised")  the call returned / raised  *)
+(*            refusal / an exception of the application listener (or the   *)
+(*            cancellation inside it) came out of the call                 *)
 (*   cancelled : c                     a task-caller got CancelledError     *)
 (* every record carries snap = [st, file, lp, fr, ar, ts, rq, nc]: the      *)
 (* observable fields of the transfer right after the event.                 *)
@@ -46,6 +48,8 @@ TInit ==
   /\ isTask = [c \in Callers |-> FALSE]
   /\ ret = [c \in Callers |-> "none"]
   /\ lastEdge = <<>>
+  /\ lst2 = Traces[tid][1].lst2
+  /\ loaded = TRUE          \* the recorder is attached from the TransferAddedEvent handler
   /\ reported = {}
   /\ prevSnap = Traces[tid][1].snap
 
@@ -74,15 +78,45 @@ TNotify ==
        /\ Rec.new = Target(op[c], dir)
        /\ st' = Rec.new
        /\ lastEdge' = <<Rec.old, Rec.new>>
-       /\ ret' = [ret EXCEPT ![c] = "true"]
-       /\ pc' = [pc EXCEPT ![c] = "done"]
-       /\ holder' = 0
+       /\ IF lst2 = "slow"
+            THEN /\ pc' = [pc EXCEPT ![c] = "lstwait"]
+                 /\ UNCHANGED <<ret, holder>>
+            ELSE /\ ret' = [ret EXCEPT ![c] = IF lst2 = "raise" THEN "raised" ELSE "true"]
+                 /\ pc' = [pc EXCEPT ![c] = "done"]
+                 /\ holder' = 0
        /\ file' = Rec.snap.file
        /\ failR' = (Rec.snap.fr # "none")
        /\ abortR' = (Rec.snap.ar # "none")
        /\ bg' = bg /\ bgCancelled' = bgCancelled
-       /\ UNCHANGED <<dir, waitq, op, cap, isTask>>
+       /\ UNCHANGED <<dir, waitq, op, cap, isTask, lst2, loaded>>
   /\ SnapAgrees /\ Consume /\ UNCHANGED reported
+
+\* A listener attached from the TransferAddedEvent handler is told something although nobody
+\* called anything yet (a load path that corrects states after adding): no operation stands
+\* behind it, so only the property itself judges it - the pair must start at the state last
+\* known and (LegalEdges, as an action constraint) be an edge of the documented graph.
+TLoadNotify ==
+  /\ IsEv("notify")
+  /\ Traces[tid][1].load
+  /\ \A c \in Callers : pc[c] = "idle"
+  /\ Rec.old = st
+  /\ st' = Rec.new
+  /\ lastEdge' = <<Rec.old, Rec.new>>
+  /\ file' = Rec.snap.file
+  /\ failR' = (Rec.snap.fr # "none")
+  /\ abortR' = (Rec.snap.ar # "none")
+  /\ UNCHANGED <<dir, bg, bgCancelled, holder, waitq, pc, op, cap, isTask, ret, lst2, loaded>>
+  /\ SnapAgrees /\ Consume /\ UNCHANGED reported
+
+\* the exception of the application listener (or CancelledError delivered inside it) came out
+\* of the call: the transition has happened and stays
+TRetRaised ==
+  /\ IsEv("ret") /\ Rec.val = "raised"
+  /\ Rec.c \in Callers \ reported
+  /\ pc[Rec.c] = "done" /\ ret[Rec.c] = "raised"
+  /\ reported' = reported \cup {Rec.c}
+  /\ UNCHANGED vars
+  /\ SnapAgrees /\ Consume
 
 TRetTrue ==
   /\ IsEv("ret") /\ Rec.val = "true"
@@ -105,7 +139,7 @@ TRetFalse ==
        /\ pc' = [pc EXCEPT ![c] = "done"]
        /\ holder' = 0
        /\ reported' = reported \cup {c}
-       /\ UNCHANGED <<dir, st, file, failR, abortR, bg, bgCancelled, waitq, op, cap, isTask, lastEdge>>
+       /\ UNCHANGED <<dir, st, file, failR, abortR, bg, bgCancelled, waitq, op, cap, isTask, lastEdge, lst2, loaded>>
   /\ SnapAgrees /\ Consume
 
 \* a task-caller waiting for the lock was cancelled by an abort/pause
@@ -118,13 +152,13 @@ TCancelled ==
         /\ \E h \in Callers : holder = h /\ op[h] \in {"abort", "pause"}
         /\ pc' = [pc EXCEPT ![Rec.c] = "cancelled"]
         /\ waitq' = SelectSeq(waitq, LAMBDA x : x # Rec.c)
-        /\ UNCHANGED <<dir, st, file, failR, abortR, bg, bgCancelled, holder, op, cap, isTask, ret, lastEdge>>
+        /\ UNCHANGED <<dir, st, file, failR, abortR, bg, bgCancelled, holder, op, cap, isTask, ret, lastEdge, lst2, loaded>>
   /\ reported' = reported \cup {Rec.c}
   /\ SnapAgrees /\ Consume
 
 Silent ==
   /\ l <= Len(T)
-  /\ \E c \in Callers : Acquire(c) \/ BodyStart(c) \/ TasksGone(c) \/ FileGone(c)
+  /\ \E c \in Callers : Acquire(c) \/ BodyStart(c) \/ TasksGone(c) \/ FileGone(c) \/ ListenerDone(c) \/ CancelInListener(c)
   /\ UNCHANGED <<tid, l, reported, prevSnap>>
 
 Done ==
@@ -135,11 +169,11 @@ Done ==
 
 Finished == l = Len(T) + 2 /\ UNCHANGED tvars
 
-TNext == TCall \/ TNotify \/ TRetTrue \/ TRetFalse \/ TCancelled \/ Silent \/ Done \/ Finished
+TNext == TCall \/ TNotify \/ TLoadNotify \/ TRetTrue \/ TRetRaised \/ TRetFalse \/ TCancelled \/ Silent \/ Done \/ Finished
 
 TSpec == TInit /\ [][TNext]_tvars
 
 \* properties of TransferState as constraints (a path that breaks one is cut, see tlc.py)
-LegalEdgesC == st' # st => <<st, st'>> \in Edge
-NotifiedC == st' # st => lastEdge' = <<st, st'>>
+LegalEdgesC == (loaded /\ st' # st) => <<st, st'>> \in Edge
+NotifiedC == (loaded /\ st' # st) => lastEdge' = <<st, st'>>
 =============================================================================
